@@ -1,5 +1,5 @@
 (* C19 — messages in one SML text are parsed independently (partial). *)
-From Secs Require Import Ast Fill Msg Lexer Parser SmlNumbers SmlProofs LexProofs ParseProofs LayoutProofs FrameProofs.
+From Secs Require Import Ast Fill Msg Lexer Parser SmlNumbers SmlProofs LexProofs ParseProofs LayoutProofs FrameProofs MsgRoundTrip.
 Open Scope Z_scope.
 
 (* variable names and ellipsis numbering are scoped to one message: parsing a
@@ -50,7 +50,20 @@ Theorem C19_all_messages : forall alnum floats input,
 Proof. exact no_silent_stop. Qed.
 Print Assumptions C19_all_messages.
 
-(* C19_concat_partial: that the tokens of t1 ++ sep ++ t2 are the tokens of t1
+(* the concatenation law for printed texts (the canonical layout String()
+   produces): the printed form of one sequence of messages followed by the
+   printed form of another parses to the messages of the first followed by the
+   messages of the second, each exactly as parsed alone, with no diagnostics —
+   lexer, parser and printer models composed (C04_print_parse) *)
+Theorem C19_concat_printed : forall alnum floats fl ms1 ms2, Forall (msg_good alnum) ms1 -> Forall (msg_good alnum) ms2 ->
+  r_msgs (sml_parse alnum floats (msgs_text fl ms1 ++ msgs_text fl ms2)) =
+    r_msgs (sml_parse alnum floats (msgs_text fl ms1)) ++ r_msgs (sml_parse alnum floats (msgs_text fl ms2)) /\
+  r_errs (sml_parse alnum floats (msgs_text fl ms1 ++ msgs_text fl ms2)) = [] /\
+  r_warns (sml_parse alnum floats (msgs_text fl ms1 ++ msgs_text fl ms2)) = [].
+Proof. exact concat_printed. Qed.
+Print Assumptions C19_concat_printed.
+
+(* C19_concat_partial (arbitrary layouts): that the tokens of t1 ++ sep ++ t2 are the tokens of t1
    (without its EOF) followed by the tokens of t2 moved by |t1 ++ sep| — the
    locality of the lexer's prefix matchers under what follows a terminator —
    and that the first text's messages do not depend on the tokens that follow
